@@ -1,3 +1,4 @@
+import shutil
 """Verus back end: generate one single-file crate per unit from the snapshot, run verus, classify."""
 import json
 import os
@@ -38,7 +39,7 @@ def generate(unit, snapshot, out_path, canary=False):
     text, metas = extract.build_unit(tpl, UNITS, snapshot, canary=canary)
     lines = text.split('\n')
     skipped = [m for m in metas if m.get('skipped')]
-    metas[:] = [m for m in metas if not m.get('skipped')]
+    metas[:] = [m for m in metas if not m.get('skipped')]   # (in place: keeps metas.lemma_canaries)
     generate.skipped = [m['fn'] for m in skipped]
     for m in metas:
         m['qual'] = (m['impl_ctx'] + '::' if m['impl_ctx'] else '') + m['fn']
@@ -55,22 +56,22 @@ def _fn_of_line(metas, line):
 
 
 def run(unit, snapshot, outdir, canary=False, rlimit=None, seed=None, timeout_s=900):
-    out_path = os.path.join(outdir, unit + ('_canary' if canary else '') + '.rs')
+    out_path = os.path.join(outdir, unit + ('_canary' if canary else '') + ('_seed%d' % seed if seed else '') + '.rs')
     t0 = time.time()
     text, metas = generate(unit, snapshot, out_path, canary=canary)
     cmd = ['verus', out_path, '--output-json', '--time', '--multiple-errors', '50', '--error-format=json',
            '--triggers-mode', 'silent']
     if rlimit:
         cmd += ['--rlimit', str(rlimit)]
-    if seed is not None:
-        cmd += ['-V', 'smt-option=smt.random_seed=%d' % seed] if False else []
+    if seed:
+        cmd += ['--smt-option', 'smt.random_seed=%d' % seed]
     try:
         p = subprocess.run(cmd, capture_output=True, text=True, timeout=timeout_s, cwd=outdir)
         stdout, stderr, rc = p.stdout, p.stderr, p.returncode
     except subprocess.TimeoutExpired:
         return {'unit': unit, 'canary': canary, 'timeout': True, 'metas': metas, 'errors': [], 'functions': {},
                 'compile_error': False, 'wall_s': round(time.time() - t0, 1), 'cmd': ' '.join(cmd), 'gen_path': out_path}
-    res = {'unit': unit, 'canary': canary, 'metas': metas, 'cmd': ' '.join(cmd), 'gen_path': out_path, 'rc': rc,
+    res = {'unit': unit, 'canary': canary, 'metas': metas, 'lemma_canaries': list(getattr(metas, 'lemma_canaries', [])), 'cmd': ' '.join(cmd), 'gen_path': out_path, 'rc': rc,
            'timeout': False, 'functions': {}, 'errors': [], 'other_errors': []}
     js = None
     try:
